@@ -273,7 +273,14 @@ def run(tier, report):
     report.add_tlc("Ranges simulation: 1-4 items, limit pool around spelling/sign boundaries, all spellings", result)
     generated = result.by_tag("VEC")
     probeset = sorted(set(p for b in generated for p in b["den"]) | set(p for b in generated for p in b["acc"]))
-    pool = sorted({-70000, -256, -17, -1, 0, 1, 9, 10, 13, 48, 65, 97, 255, 256, 70000})
+    # the limit pool of the generated configuration, read from the model constants (one source of truth)
+    import os
+    import re
+    constants = open(os.path.join(core.SPEC, "MCRanges.tla"), encoding="utf-8").read()
+    match = re.search(r"^GLim == \{([^}]*)\}", constants, re.M)
+    if match is None:
+        raise core.MachineryError("GLim not found in MCRanges.tla")
+    pool = sorted(int(item) for item in match.group(1).split(","))
     probeset = sorted(set(x + d for x in pool for d in (-1, 0, 1)))
     seen = set()
     unique = []
